@@ -262,7 +262,7 @@ package lib
 //@   requires r != nil && d != nil && !held(&r.m) && rheld(&r.m) == 0
 // representation invariant of the timeout index: no nil records (track is the only writer and stores a fresh record)
 //@   requires @SAFETY: forall k string :: k in r.decoysTimeouts ==> r.decoysTimeouts[k] != nil
-//@   atcall dynamic#1 before: assert @C09 @C08: held(&r.m) && regTimeout.status == regStatusUsed && arg0 == d
+//@   atcall dynamic#1 before: assert @C09 @C08 @C10: held(&r.m) && regTimeout.status == regStatusUsed && arg0 == d
 //@   atcall dynamic#1 before: snap markedUsed := true
 //@   dynamiccalls assigns nothing
 // C08: a connection changes a record's state to used, never its clock
